@@ -115,6 +115,22 @@ def _raises_value_error_on_other_branch(tree):
     return any(isinstance(n, ast.Raise) and n.exc is not None and "ValueError" in ast.unparse(n.exc) for n in ast.walk(tree))
 
 
+def _fresh_elements(ctx, R, t, p, tree, lineno, where):
+    """default value of an array of nested objects: one object per element.  `full(n, T())` / `[T()] * n` put the *same* object into every
+    slot - assigning a field of one element changes all of them, and an in-place update of the elements leaves n copies of the last."""
+    for c in ast.walk(tree):
+        shared = None
+        if isinstance(c, ast.Call) and isinstance(c.func, ast.Attribute) and c.func.attr in ("full", "repeat", "tile") and len(c.args) >= 2:
+            fill = c.args[1] if c.func.attr == "full" else c.args[0]
+            if isinstance(fill, ast.Call) and not (isinstance(fill.func, ast.Attribute) and fill.func.attr in ("zeros", "array")):
+                shared = ast.unparse(c)
+        if isinstance(c, ast.BinOp) and isinstance(c.op, ast.Mult) and any(isinstance(side, ast.List) and any(isinstance(e_, ast.Call) for e_ in side.elts) for side in (c.left, c.right)):
+            shared = ast.unparse(c)
+        if shared is not None:
+            ctx.ob(R, t.rel, f"{where} [{' & '.join(c_ for c_, pol in p.conds if pol and 'for ' not in c_)[-70:]}]: default array elements are distinct objects", False,
+                   f"`{shared[:70]}` evaluates the element constructor once and stores that one object in every slot", lineno)
+
+
 def rule_validate(ctx, ts):
     R = "R-C18-VALIDATE"
     ctx.rule(
@@ -284,9 +300,10 @@ def rule_validate(ctx, ts):
     k = 0
     for lp in _union_split(N, init_if)[0]:
         if isinstance(lp, N.For) and any(isinstance(x, N.If) for x in lp.body):
-            for p in j2text.render_paths(N, lp.body):
+            for p in j2text.render_paths(N, lp.body, macros={k_: v_ for k_, v_ in ts.macros(t).items() if k_ != "assign_array"}):
                 k += 1
                 tree = _parse(p, "__init__ (struct)")
+                _fresh_elements(ctx, R, t, p, tree, lp.lineno, "__init__ (struct)")
                 fid = p.name_of(FID)
                 direct = _backing_assigns(tree, "_" + fid) if fid else []
                 ok = not direct
@@ -375,11 +392,12 @@ def rule_union(ctx, ts):
     cnt_loops = [x for x in union_branch if isinstance(x, N.For) and any("_init_cnt_ += 1" in d.data for d in x.find_all(N.TemplateData))]
     ok = len(cnt_loops) == 1 and xs(cnt_loops[0].iter) == "type.fields" and cnt_loops[0].test is None
     ctx.ob(R, t.rel, "union __init__: every option is counted (unfiltered loop over type.fields)", ok, "", init_if.lineno)
-    paths = j2text.render_paths(N, union_branch)
+    paths = j2text.render_paths(N, union_branch, macros={k_: v_ for k_, v_ in ts.macros(t).items() if k_ != "assign_array"})
     n = 0
     for p in paths:
         n += 1
         tree = _parse(p, "__init__ (union)")
+        _fresh_elements(ctx, R, t, p, tree, init_if.lineno, "__init__ (union)")
         zero = [s for s in ast.walk(tree) if isinstance(s, ast.If) and ast.unparse(s.test) == "_init_cnt_ == 0"]
         ok = len(zero) == 1
         if ok:
@@ -441,6 +459,14 @@ def rule_model(ctx, ts, px):
     pk = [f for f in m.find_all(N.Filter) if f.name == "pickle"]
     ok = len(pk) == 1 and xs(pk[0].node) == type_param
     ctx.ob(R, t.rel, "data_schema: _MODEL_ pickles the macro's own `type` argument", ok, "" if ok else f"pickles {[xs(f.node) for f in pk]}", m.lineno)
+    # ... and the name still denotes that argument where it is pickled: a `{% set type = type.inner_type %}` ahead of it silently swaps the
+    # model (and everything else taken from `type`: the extent, the reported full name) for the undecorated inner type
+    rebinds = [a for a in m.find_all(N.Assign) if isinstance(a.target, N.Name) and a.target.name == type_param]
+    rebinds += [a for a in m.find_all(N.Assign) if not isinstance(a.target, N.Name) and any(x.name == type_param for x in a.target.find_all(N.Name))]
+    ok = not rebinds
+    ctx.ob(R, t.rel, "data_schema: the `type` argument is not re-bound inside the macro", ok,
+           "" if ok else f"`{{% set {type_param} = {xs(rebinds[0].node)} %}}`: from there on _MODEL_, _EXTENT_BYTES_ and the reflected names describe that value, not the type "
+           "the class was generated for (a delimited type reports the sealed inner model and its extent)", rebinds[0].lineno if rebinds else m.lineno)
     txt = "".join(d.data for d in m.find_all(N.TemplateData))
     ok = "_MODEL_: _pydsdl_." in txt and "= _restore_constant_(" in txt
     ctx.ob(R, t.rel, "data_schema: _MODEL_ = _restore_constant_(<blob>)", ok, "", m.lineno)
@@ -580,28 +606,49 @@ def rule_builtin(ctx, ts):
         after = up.body[up.body.index(lp) + 1:]
         ok = any(isinstance(x, ast.If) and ast.unparse(x.test) == src and any(isinstance(r, ast.Raise) and "ValueError" in ast.unparse(r) for r in ast.walk(x)) for x in after)
         ctx.ob(R, t.rel, "update_from_builtin: leftover source keys raise ValueError", ok, "", up.lineno)
-        # to_builtin: a str is produced for an array exactly under the predicate that makes the generated setter accept a str
-        model = tb.args.args[1].arg if len(tb.args.args) > 1 else "model"
+        # to_builtin: a str is produced for an array exactly under the predicate that makes the generated setter accept a str.
+        # The walk may be split over private module-level helpers (one per kind): all of them are judged, each with its own model parameter.
+        unit, seen_u = [tb], {tb.name}
+        qi = 0
+        while qi < len(unit):
+            for c in ast.walk(unit[qi]):
+                if isinstance(c, ast.Call) and isinstance(c.func, ast.Name) and c.func.id in fns and c.func.id.startswith("_") and c.func.id not in seen_u:
+                    seen_u.add(c.func.id)
+                    unit.append(fns[c.func.id])
+            qi += 1
         n_str = 0
-        for st, gd in pyfront.walk_guarded(tb.body, ()):
-            if isinstance(st, ast.Return) and st.value is not None and ".decode()" in ast.unparse(st.value):
-                n_str += 1
-                terms = pyfront.guard_terms([(pyfront.subst_locals(tb, t_), p_) for t_, p_ in gd])
-                ok = any(pol and re.fullmatch(rf"{model}\.string_like", e) is not None for e, pol in terms) or \
-                    any(pol and e.startswith(f"{model}.string_like and ") for e, pol in terms)
-                ctx.ob(R, t.rel, "_to_builtin_impl: an array becomes a str only where the model is string_like (the predicate under which the setter takes a str)", ok,
-                       "" if ok else f"str returned under {[(e[:70], pol) for e, pol in terms]}: for an array that is not string_like (e.g. a fixed-length uint8 array) the "
-                       "result cannot be applied back with update_from_builtin", st.lineno)
+        for fn_ in unit:
+            model = fn_.args.args[1].arg if len(fn_.args.args) > 1 else "model"
+            for st, gd in pyfront.walk_guarded(fn_.body, ()):
+                if isinstance(st, ast.Return) and st.value is not None and ".decode()" in ast.unparse(st.value):
+                    n_str += 1
+                    terms = pyfront.guard_terms([(pyfront.subst_locals(fn_, t_), p_) for t_, p_ in gd])
+                    ok = any(pol and re.fullmatch(rf"{model}\.string_like", e) is not None for e, pol in terms) or \
+                        any(pol and e.startswith(f"{model}.string_like and ") for e, pol in terms)
+                    ctx.ob(R, t.rel, "_to_builtin_impl: an array becomes a str only where the model is string_like (the predicate under which the setter takes a str)", ok,
+                           "" if ok else f"str returned under {[(e[:70], pol) for e, pol in terms]}: for an array that is not string_like (e.g. a fixed-length uint8 array) the "
+                           "result cannot be applied back with update_from_builtin", st.lineno)
         ctx.ob(R, t.rel, "_to_builtin_impl: the str special case exists (anchor)", n_str >= 1, "", tb.lineno)
-        # to_builtin: composite branch
-        comps = [c for c in ast.walk(tb) if isinstance(c, ast.DictComp)]
-        ok = len(comps) == 1 and len(comps[0].generators) == 1 and ast.unparse(comps[0].generators[0].iter).endswith(".fields_except_padding")
-        if ok:
-            g = comps[0].generators[0]
-            v = g.target.id if isinstance(g.target, ast.Name) else "f"
-            ok = ast.unparse(comps[0].key) == f"{v}.name" and len(g.ifs) <= 1 and all(
-                isinstance(i, ast.Compare) and len(i.ops) == 1 and isinstance(i.ops[0], ast.IsNot) and ast.unparse(i.comparators[0]) == "None"
-                and ast.unparse(i.left).startswith("get_attribute(") for i in g.ifs)
+        # to_builtin: composite branch - a dict comprehension over the fields, or a loop that fills a dict
+        ok = False
+        for fn_ in unit:
+            comps = [c for c in ast.walk(fn_) if isinstance(c, ast.DictComp)]
+            if len(comps) == 1 and len(comps[0].generators) == 1 and ast.unparse(comps[0].generators[0].iter).endswith(".fields_except_padding"):
+                g = comps[0].generators[0]
+                v = g.target.id if isinstance(g.target, ast.Name) else "f"
+                ok = ast.unparse(comps[0].key) == f"{v}.name" and len(g.ifs) <= 1 and all(
+                    isinstance(i_, ast.Compare) and len(i_.ops) == 1 and isinstance(i_.ops[0], ast.IsNot) and ast.unparse(i_.comparators[0]) == "None"
+                    and ast.unparse(i_.left).startswith("get_attribute(") for i_ in g.ifs)
+            for lp in [n_ for n_ in fn_.body if isinstance(n_, ast.For) and ast.unparse(n_.iter).endswith(".fields_except_padding") and isinstance(n_.target, ast.Name)]:
+                v = lp.target.id
+                stores = [(st_, gd_) for st_, gd_ in pyfront.walk_guarded(lp.body, ()) if isinstance(st_, ast.Assign) and isinstance(st_.targets[0], ast.Subscript)
+                          and ast.unparse(st_.targets[0].slice) == f"{v}.name"]
+                skips = [(st_, gd_) for st_, gd_ in pyfront.walk_guarded(lp.body, ()) if isinstance(st_, (ast.Continue, ast.Break, ast.Return))]
+
+                def _only_none_test(gd_):
+                    terms_ = pyfront.guard_terms([(pyfront.subst_locals(lp, t_), p_) for t_, p_ in gd_])
+                    return all(re.fullmatch(r"get_attribute\(.*\) is (not )?None", e_) or re.fullmatch(r"\w+ is (not )?None", e_) for e_, _p in terms_)
+                ok = ok or (len(stores) == 1 and _only_none_test(stores[0][1]) and all(isinstance(s_[0], ast.Continue) and _only_none_test(s_[1]) for s_ in skips))
         ctx.ob(R, t.rel, "_to_builtin_impl: every field whose attribute is not None is emitted under its DSDL name", ok, "", tb.lineno)
         # DSDL name -> Python attribute: both walks address a field through get_attribute / set_attribute.  The generated class names
         # a field `x` unless x is reserved (then `x_`); a type may well have both `value` and `value_`, so the unsuffixed name must be
@@ -723,7 +770,7 @@ def run(ctx):
     ts = j2front.TemplateSet(ctx.root)
     px = pyfront.PyIndex(ctx.root)
     canonicalise(ts)
+    rule_model(ctx, ts, px)
     rule_validate(ctx, ts)
     rule_union(ctx, ts)
-    rule_model(ctx, ts, px)
     rule_builtin(ctx, ts)
